@@ -385,11 +385,21 @@ pub fn minimise<P: Prop>(p: &P, case: &P::Case, fail: &Fail, budget: usize) -> (
         }
     };
     let mut used = 0;
+    let mut seen: HashSet<u64> = HashSet::new();
+    let key = |c: &P::Case| {
+        let mut d = Dig::new();
+        d.add_bytes(serde_json::to_string(c).unwrap_or_default().as_bytes());
+        d.finish()
+    };
+    seen.insert(key(&cur));
     'outer: loop {
         let cands = p.shrink(&cur);
         for cand in cands {
             if used >= budget {
                 break 'outer;
+            }
+            if !seen.insert(key(&cand)) {
+                continue;
             }
             used += 1;
             let out = exec_guarded(p, &cand);
